@@ -26,12 +26,13 @@ type Cfg struct {
 }
 
 type DialEvent struct {
-	Step    uint64
-	At      time.Duration
-	Addr    string
-	Outcome string // ok, refused, hang, nolistener
-	Pipe    int
-	G       string
+	CallStep uint64 // step at which the dialing goroutine called Dial
+	Step     uint64
+	At       time.Duration
+	Addr     string
+	Outcome  string // ok, refused, hang, nolistener
+	Pipe     int
+	G        string
 }
 
 type FaultStats map[string]int
@@ -881,9 +882,10 @@ func (l *Listener) Addr() net.Addr { return simAddr(l.addr) }
 func (n *Net) Dialer(ws bool) func(ctx context.Context, network, addr string) (net.Conn, error) {
 	return func(ctx context.Context, network, addr string) (net.Conn, error) {
 		simrt.AdoptChild("dial:" + addr)
+		callStep := n.S.Step() // when the caller decided to dial (the park below models scheduling delay)
 		simrt.Park("dial", addr)
 		n.mu.Lock()
-		ev := DialEvent{Step: n.S.Step(), At: n.S.Now(), Addr: addr, G: simrt.Self(), Pipe: -1}
+		ev := DialEvent{Step: n.S.Step(), CallStep: callStep, At: n.S.Now(), Addr: addr, G: simrt.Self(), Pipe: -1}
 		d := n.ds(addr)
 		l := n.listeners[addr]
 		switch {
